@@ -332,6 +332,9 @@ def check_c04_engine(force, nodes, info):
     for k, layer in enumerate(got):
         if sorted(map(id, layer)) != sorted(map(id, L.get(k, []))):
             return ("C04:getLayers-mismatch", "layer %d reported by the engine differs from the stub chains" % k)
+    if (force.options.get("maxPos") is None or force.options.get("minPos") is None) and len(got) > 1:
+        return ("C04:split-without-bound", "the engine has no position bounds (minPos %r, maxPos %r) but reports %d layers"
+                % (force.options.get("minPos"), force.options.get("maxPos"), len(got)))
     from mc.props import c04
     bad = c04.check_structure([list(x) for x in got], nodes, force.options.get("stubWidth", 1))
     if bad:
